@@ -7,7 +7,7 @@ import _checker_common as K
 
 ANN_POOL = ['int', 'int', 'str', 'float', 'bool', 'List[int]', 'list[int]', 'Dict[str, int]', 'Optional[int]', 'Union[int, str]',
             'Tuple[int, str]', 'Tuple[int, ...]', 'Set[int]', 'P', 'Any', 'Iterable[int]', 'Iterable[int]', 'Optional[Iterable[int]]', 'Sequence[str]', 'int | None',
-            'Literal[1, 2]', 'Type[P]', 'None']
+            'Literal[1, 2]', 'Type[P]', 'None', "'P'", "List['C1']", "Optional['P']"]
 BARE_POOL = ['list', 'List', 'dict', 'Dict', 'set', 'Set', 'frozenset', 'FrozenSet', 'tuple', 'Tuple', 'type', 'Type', 'Callable', 'Iterable', 'Sequence']
 RET_POOL = ['int', 'str', 'None', 'None', 'List[int]', 'Optional[int]', 'P', 'Any', 'bool', 'Tuple[int, str]']
 NEEDLES = [None] * 6 + ['*args', '@staticmethod', '@pedantic', '@{name}.setter', 'mail me: a@b.c', '**kwargs', '@require_kwargs']
@@ -193,13 +193,17 @@ def gen_callable(r, idx, profile='mixed'):
             tm = f"    {d} {name}({sig('self')}){retann}:\n" + body('        ')
             access = [('inst', cls, name)]
         elif kind in ('inst_class', 'dunder_class'):
-            m = tm = f"    {d} {name}({sig('self')}){retann}:\n" + body('        ')
+            # a member of a @pedantic_class class may carry another (functools.wraps based) decorator of its own
+            other = '    @passthru\n' if kind == 'inst_class' and r.random() < 0.25 else ''
+            m = tm = other + f"    {d} {name}({sig('self')}){retann}:\n" + body('        ')
             access = [('inst', cls, name)]
         elif kind == 'static_class':
-            m = tm = f"    @staticmethod\n    {d} {name}({sig(None)}){retann}:\n" + body('        ')
+            other = '    @passthru\n' if r.random() < 0.2 else ''
+            m = tm = f"    @staticmethod\n" + other + f"    {d} {name}({sig(None)}){retann}:\n" + body('        ')
             access = [('cls', cls, name), ('inst', cls, name)]
         elif kind == 'class_class':
-            m = tm = f"    @classmethod\n    {d} {name}({sig('cls')}){retann}:\n" + body('        ')
+            other = '    @passthru\n' if r.random() < 0.2 else ''
+            m = tm = f"    @classmethod\n" + other + f"    {d} {name}({sig('cls')}){retann}:\n" + body('        ')
             access = [('cls', cls, name), ('inst', cls, name)]
         else:  # static_direct
             m = f"    @staticmethod\n    @pedantic\n    {d} {name}({sig(None)}){retann}:\n" + body('        ')
@@ -430,16 +434,75 @@ def classify(e, scripted):
     return 'ESC:' + type(e).__name__
 
 
-def run_one(target, pos_objs, kw_objs, hook, script, coroutine):
+CALLER_SRC = """def call(target, pos, kw):
+    return target(*pos, **kw)
+async def acall(target, pos, kw):
+    return await target(*pos, **kw)
+def getp(inst, name):
+    return getattr(inst, name)
+def setp(inst, name, v):
+    setattr(inst, name, v)
+def delp(inst, name):
+    delattr(inst, name)
+"""
+
+
+class PropAccess:
+    """attribute access on a property, performed from the calling module (not from a helper of the harness)"""
+
+    def __init__(self, how, inst, name):
+        self.how, self.inst, self.name = how, inst, name
+
+    def __call__(self, *pos):                 # without a caller module
+        return {'propget': getattr, 'propset': setattr, 'propdel': delattr}[self.how](self.inst, self.name, *pos)
+_callers_made = [0]
+
+
+def make_caller(names):
+    """a fresh module from which decorated callables are called: the library resolves string annotations / forward references
+    in the namespace of the CALLER of the wrapper (get_context), so what that module's globals bind matters"""
+    _callers_made[0] += 1
+    m = types.ModuleType(f'pedcaller_{_callers_made[0]}')
+    exec(compile(CALLER_SRC, f'<pedcaller_{_callers_made[0]}>', 'exec'), m.__dict__)
+    if names:
+        m.__dict__.update(K.CTX)
+    return m
+
+
+class Callers:
+    """'full': binds every name of the context from the start; 'bare': binds none; 'late': binds them when `bind_late` is applied"""
+
+    def __init__(self):
+        self.mods = {'full': make_caller(True), 'bare': make_caller(False), 'late': make_caller(False)}
+        self.late_bound = False
+
+    def bind_late(self):
+        self.mods['late'].__dict__.update(K.CTX)
+        self.late_bound = True
+
+    def has_names(self, mode):
+        return mode == 'full' or (mode == 'late' and self.late_bound)
+
+
+def run_one(target, pos_objs, kw_objs, hook, script, coroutine, caller=None):
     """returns (outcome class, result object or None, journal)"""
     hook.script = script
     del hook.journal[:]
     scripted = script[1] if script[0] == 'raises' else None
     try:
         with contextlib.redirect_stdout(io.StringIO()):
-            res = target(*pos_objs, **kw_objs)
-            if coroutine and inspect.iscoroutine(res):
-                res = asyncio.run(res)
+            if caller is None:
+                res = target(*pos_objs, **kw_objs)
+                if coroutine and inspect.iscoroutine(res):
+                    res = asyncio.run(res)
+            elif isinstance(target, PropAccess):
+                res = {'propget': caller.getp, 'propset': caller.setp, 'propdel': caller.delp}[target.how](target.inst, target.name, *pos_objs)
+            elif coroutine:
+                res = asyncio.run(caller.acall(target, pos_objs, kw_objs))      # awaited from a coroutine of the caller module
+            else:
+                res = caller.call(target, pos_objs, kw_objs)
+                if coroutine and inspect.iscoroutine(res):
+                    res = asyncio.run(res)
         return 'RET', res, list(hook.journal)
     except BaseException as e:
         return classify(e, scripted), None, list(hook.journal)
@@ -481,6 +544,7 @@ class Programs:
         open(self.twin_path, 'w').write(TWIN_PRELUDE + '\n' + '\n'.join(twins))
         self.mod = load_module(self.path, f'genmod_{tag}', self.hook)
         self.twin = load_module(self.twin_path, f'gentwin_{tag}', self.twin_hook)
+        self.callers = Callers()
 
     def close(self):
         shutil.rmtree(self.dir, ignore_errors=True)
@@ -494,12 +558,8 @@ class Programs:
         if acc[0] == 'cls':
             return getattr(c, acc[2]), None
         inst = c()
-        if acc[0] == 'propget':
-            return (lambda: getattr(inst, acc[2])), inst
-        if acc[0] == 'propset':
-            return (lambda v: setattr(inst, acc[2], v)), inst
-        if acc[0] == 'propdel':
-            return (lambda: delattr(inst, acc[2])), inst
+        if acc[0] in ('propget', 'propset', 'propdel'):
+            return PropAccess(acc[0], inst, acc[2]), inst
         return getattr(inst, acc[2]), inst
 
     def raw_of(self, F, acc):
@@ -550,7 +610,7 @@ def implicit_of(kind, acc):
                                                'require_kwargs_method')) else 0
 
 
-def execute(P, F, acc, pos, kw, body):
+def execute(P, F, acc, pos, kw, body, ctxmode='full'):
     """run the decorated callable and its undecorated twin on the same (freshly built) objects"""
     coroutine = F['flavour'] == 'coroutine'
 
@@ -565,7 +625,7 @@ def execute(P, F, acc, pos, kw, body):
         else:
             script = ('ret', K.build_val(body[1]))
         hook.produced = None
-        out, res, journal = run_one(target, pos_objs, kw_objs, hook, script, coroutine)
+        out, res, journal = run_one(target, pos_objs, kw_objs, hook, script, coroutine, P.callers.mods[ctxmode])
         caller_objs = pos_objs + list(kw_objs.values())
         remaining = {}      # how many items every one-shot iterator argument still holds after the call (the scripted body never iterates)
         for i, o in enumerate(caller_objs):
@@ -622,16 +682,18 @@ def build_cases(rng, n_callables, calls_per=4, profile='mixed', style=None, tag=
                     if isprop:
                         kw = []           # attribute access has no keywords
                     body = gen_body(rng, desc)
-                    impl = execute(P, F, acc, pos, kw, body)
+                    ctxmode = 'full' if rng.random() < 0.85 else 'bare'        # which module the call is made from
+                    impl = execute(P, F, acc, pos, kw, body, ctxmode)
                     implicit = implicit_of(F['kind'], acc)
                     truth = {'realStatic': F['kind'] in ('static_class', 'static_direct'), 'realSetter': acc[0] == 'propset',
                              'realPedantic': real_pedantic(F['kind'], F.get('alias', False)), 'implicit': implicit}
                     mbody = ['raises', 0] if body[0] == 'raises' else (['ret', ["inst", K.IDX[K.U]]] if body[0] == 'retzoo' else body)
                     cases.append({'m': 'calllayer',
-                                  'c': {'env': K.env_json(), 'fn': desc, 'truth': truth,
+                                  'c': {'env': env_for(P, ctxmode, F['src']), 'fn': desc, 'truth': truth,
                                         'args': ([["inst", K.IDX[K.U]]] if implicit else []) + pos, 'kw': kw, 'body': mbody},
                                   'x': {'src': F['src'], 'twin': F['twin'], 'access': list(acc), 'kind': F['kind'], 'flavour': F['flavour'],
-                                        'pos': pos, 'kwv': kw, 'body': body, 'implicit': implicit, 'needle': F['needle'], '_impl': impl}})
+                                        'pos': pos, 'kwv': kw, 'body': body, 'implicit': implicit, 'needle': F['needle'], 'ctxmode': ctxmode,
+                                        '_impl': impl}})
     finally:
         P.close()
     return cases
@@ -649,13 +711,25 @@ class OneProgram(Programs):
         open(self.twin_path, 'w').write(TWIN_PRELUDE + '\n' + twin)
         self.mod = load_module(self.path, f'genmod_{tag}', self.hook)
         self.twin = load_module(self.twin_path, f'gentwin_{tag}', self.twin_hook)
+        self.callers = Callers()
+
+
+def env_for(P, ctxmode, src=''):
+    """the class table with the context in which the library resolves names for this call: the globals of the module that
+    calls the pedantic wrapper - the calling module, or the generated module itself when a pass-through decorator sits above
+    @pedantic (its prelude binds the context names P C1 C2 G U MI)"""
+    env = K.env_json()
+    through = '@passthru\n@pedantic' in src or '@passthru\n    @pedantic' in src
+    return env if (P.callers.has_names(ctxmode) or through) else dict(env, ctx=[])
 
 
 def apply_pre(P, pre):
     """an operation between two calls of a scenario, applied to the decorated module and its twin alike"""
     if not pre:
         return
-    if pre[0] == 'append':                       # a mutable default object is mutated in place
+    if pre[0] == 'bind_late':                    # the 'late' caller module gets the names of the context bound in its globals
+        P.callers.bind_late()
+    elif pre[0] == 'append':                     # a mutable default object is mutated in place
         for mod in (P.mod, P.twin):
             getattr(mod, pre[1]).append(K.build_val(pre[2]))
     elif pre[0] == 'setitem':
@@ -676,10 +750,10 @@ def run_impl_calls(cases):
         try:
             for h in x.get('history', []):       # a scenario case: replay the calls that preceded it on a fresh module
                 apply_pre(P, h.get('pre'))
-                execute(P, {'flavour': h['flavour'], 'kind': h['kind']}, tuple(h['access']), h['pos'], h['kwv'], h['body'])
+                execute(P, {'flavour': h['flavour'], 'kind': h['kind']}, tuple(h['access']), h['pos'], h['kwv'], h['body'], h.get('ctxmode', 'full'))
             apply_pre(P, x.get('pre'))
             F = {'flavour': x['flavour'], 'kind': x['kind']}
-            out.append(execute(P, F, tuple(x['access']), x['pos'], x['kwv'], x['body']))
+            out.append(execute(P, F, tuple(x['access']), x['pos'], x['kwv'], x['body'], x.get('ctxmode', 'full')))
         finally:
             P.close()
     return out
@@ -699,12 +773,24 @@ MUT_TEMPLATES = [('List[int]', '[1]', ['append', None, ["lit", ["str", [120]]]])
 
 def gen_scenario(r, idx):
     """{'src', 'twin', 'callables': [(access, kind, flavour)], 'steps': [(callable index, pre)]}"""
-    kind = r.choice(['samename', 'samename', 'mutdefault', 'sharedkw'])
+    kind = r.choice(['samename', 'samename', 'mutdefault', 'sharedkw', 'context'])
     deco = r.choice(['@pedantic', '@pedantic', '@require_kwargs'])
     flav = r.choice(['sync'] * 4 + ['coroutine'])
     d = 'async def' if flav == 'coroutine' else 'def'
     ret = r.choice([' -> int', ' -> int', ' -> None', ' -> str'])
     k = 'plain' if deco == '@pedantic' else 'require_kwargs'
+    if kind == 'context':           # string annotations / forward references, called from modules that bind the names or not (yet)
+        ann = r.choice(["'P'", "'C1'", "List['C1']", "Optional['P']", "Dict[str, 'P']"])
+        retann = r.choice([' -> None', ' -> None', f' -> {ann}'])
+        def fn(nm, i, dec):
+            return (dec + '\n' if dec else '') + f'{d} {nm}(p0: {ann}){retann}:\n    return _BODY({idx * 2 + i}, locals())\n'
+        src = fn(f'c{idx}', 0, deco) + fn(f'e{idx}', 1, deco)
+        twin = fn(f'c{idx}', 0, None) + fn(f'e{idx}', 1, None)
+        callables = [(('mod', f'c{idx}'), k, flav), (('mod', f'e{idx}'), k, flav)]
+        first = r.choice(['bare', 'late'])
+        steps = [(0, None, first)] + [(r.randrange(2), None, r.choice(['bare', 'late', 'full'])) for _ in range(r.randint(0, 1))] \
+            + [(0, ['bind_late'], 'late'), (r.randrange(2), None, r.choice(['late', 'full'])), (0, None, 'full')]
+        return {'src': src, 'twin': twin, 'callables': callables, 'steps': steps, 'skind': kind}
     if kind == 'sharedkw':          # two different callables: names of A's parameters are keys of B's **kwargs
         sa = r.choice(['p0: int', "p0: int, p1: str = 'd'", 'p1: int, p0: str', 'p0: List[int]', 'p0: int = 5'])
         sb = r.choice(['**kwargs: int', 'p2: str, **kwargs: int', '**kwargs: str', '*args: int, **kwargs: int', '**kwargs: List[int]'])
@@ -760,7 +846,9 @@ def scenario_cases(rng, n, style=None, tag='s'):
         P = OneProgram(S['src'], S['twin'], f'{tag}{idx}_{rng.randrange(10**9)}')
         history = []
         try:
-            for (ci, pre) in S['steps']:
+            for step_ in S['steps']:
+                ci, pre = step_[0], step_[1]
+                ctxmode = step_[2] if len(step_) > 2 else 'full'
                 acc, kind, flav = S['callables'][ci]
                 F = {'flavour': flav, 'kind': kind}
                 apply_pre(P, pre)
@@ -773,17 +861,24 @@ def scenario_cases(rng, n, style=None, tag='s'):
                     break
                 st = style if style is not None else rng.choice(['kw', 'kw', 'pos1', 'posall'])
                 pos, kw = gen_call(rng, F, desc, st, bad_range=4, hot=('p0', 'p1') if S['skind'] == 'sharedkw' else ())
+                if S['skind'] == 'context' and rng.random() < 0.5 and kw:
+                    # an impostor: an instance of ANOTHER class that merely has the same __name__ as the class the annotation names
+                    imp = ["inst", K.IDX[K.Pdup]]
+                    a = desc['params'][0]['ann']
+                    wrapped = imp if a[0] in ('str', 'union') else (["coll", K.IDX[list], [imp]] if a[0] == 'seq' else
+                                                                  ["mapping", K.IDX[dict], [[K.lit('k'), imp]]] if a[0] == 'map' else imp)
+                    kw = [[kw[0][0], K.canon_term(wrapped)]] + kw[1:]
                 if S['skind'] == 'mutdefault':                      # the mutated default matters only when the parameter is omitted
                     kw = [kv for kv in kw if K.name_of(kv[0]) != 'p1']
                     pos = pos[:len([p for p in desc['params'] if p['kind'] in ('po', 'pk')]) - 1]
                 body = gen_body(rng, desc)
-                impl = execute(P, F, acc, pos, kw, body)
+                impl = execute(P, F, acc, pos, kw, body, ctxmode)
                 implicit = implicit_of(kind, acc)
                 truth = {'realStatic': False, 'realSetter': False, 'realPedantic': True, 'implicit': implicit}
                 mbody = ['raises', 0] if body[0] == 'raises' else (['ret', ["inst", K.IDX[K.U]]] if body[0] == 'retzoo' else body)
-                step = {'access': list(acc), 'kind': kind, 'flavour': flav, 'pos': pos, 'kwv': kw, 'body': body, 'pre': pre}
+                step = {'access': list(acc), 'kind': kind, 'flavour': flav, 'pos': pos, 'kwv': kw, 'body': body, 'pre': pre, 'ctxmode': ctxmode}
                 cases.append({'m': 'calllayer',
-                              'c': {'env': K.env_json(), 'fn': desc, 'truth': truth,
+                              'c': {'env': env_for(P, ctxmode), 'fn': desc, 'truth': truth,
                                     'args': ([["inst", K.IDX[K.U]]] if implicit else []) + pos, 'kw': kw, 'body': mbody},
                               'x': dict(step, src=S['src'], twin=S['twin'], implicit=implicit, needle=None, history=list(history),
                                         scenario=S['skind'], _impl=impl)})
